@@ -229,8 +229,8 @@ def protocol(run, it, prop):
                     elif op.startswith("pickle"):
                         st_ = ex.call(ex.getattr(s, "__getstate__"), [], {})
                         new = Obj(u.cs, {})
-                        ex.call(ex.getattr(new, "__setstate__"), [dict(st_, dependencies={k: set(v) for k, v in st_["dependencies"].items()},
-                                                                         cache=dict(st_["cache"]), variables=dict(st_["variables"]))], {})
+                        import copy as _copy
+                        ex.call(ex.getattr(new, "__setstate__"), [_copy.deepcopy(st_)], {})  # pickling = deep copy of whatever __getstate__ returns
                         for k in u.key:
                             w = {"f": u.f, "g": u.g, "d": u.d}[k[0]]
                             sysobj = u.sysB if k[1] == "B" else u.sysA
